@@ -10,6 +10,20 @@ namespace c09
     {
         template <class T> static std::string enc(const T &v) { return igris::serialize(v); }
         template <class T> static T dec(const char *p, size_t n) { return igris::deserialize<T>(igris::buffer(p, n)); }
+        // binary_buffer_writer into a caller block of exactly |enc| bytes; deserialize<T>(std::string)
+        template <class T> static const char *extra(const T &v, const std::string &enc)
+        {
+            vf::Exact out(nullptr, enc.size(), 1, false);
+            igris::archive::binary_buffer_writer w(out.c(), enc.size());
+            igris::serialize(w, v);
+            if ((size_t)(w.ptr - out.c()) != enc.size())
+                return "binary_buffer_writer: write cursor != number of bytes binary_string_writer produced";
+            if (memcmp(out.p, enc.data(), enc.size()) != 0)
+                return "binary_buffer_writer: bytes differ from binary_string_writer";
+            if (enc.size() <= 4096 && !same(igris::deserialize<T>(enc), v))
+                return "deserialize<T>(std::string) != v";
+            return nullptr;
+        }
         struct Reader
         {
             const char *base;
